@@ -198,6 +198,17 @@ def run(ctx):
     ck.ob("C08-R4", "-", "mapped_absorbed_keys-writers", {kk: sorted("DRAIN" if x == "OTHERMUT:take" else x for x in v) for kk, v in ab_w.items()} == {ANM: ["ADD"], NP: ["RETAIN"], RAK: ["DRAIN"]},
           detail=str({kk[len(MOD):]: sorted(v) for kk, v in ab_w.items()}))
     ck.ob("C08-R4", "-", "absorbing_trigger-writers", set(at_w) == {ANM, RAK}, detail=str({kk[len(MOD):]: sorted(v) for kk, v in at_w.items()}))
+    # every firing of an absorbing mapping (re)writes the trigger, whatever it held before
+    for fx in K.path_fx(anm):
+        if fx.tag != "fn" or fx.path.outcome[0] != "return":
+            continue
+        emp = [v for a, v in fx.all_guards() if a == T("empty", T("field", m, "absorbing"))]
+        gt = [v for a, v in fx.all_guards() if isinstance(a, tuple) and a[0] == "binop" and a[1] == "Gt" and a[2] == T("len", T("field", m, "absorbing"))]
+        nonempty = emp == [False] or gt == [True]
+        if nonempty:
+            st = [e for e in fx.effects if e.kind == "STORE" and e.lst == "AT" and isinstance(e.key, tuple) and e.key[0] == "agg" and e.key[2] == "Some" and mir.strip(e.key[3][0]) == nk]
+            ck.ob("C08-R4", ANM, "an-absorbing-mapping-sets-the-trigger-to-the-pressed-key-on-every-path(unconditionally)", len(st) >= 1,
+                  detail=None if st else "a return path on which the mapping's absorbing list is non-empty does not store Some(pressed key) into absorbing_trigger")
     # paths of add_new_mapping with an empty absorbing list leave the trigger alone
     for fx in K.path_fx(anm):
         if fx.tag != "fn" or fx.path.outcome[0] != "return":
